@@ -113,13 +113,26 @@ def r17_3(ctx):
         f = m.cls(cname).methods.get("_lower")
         need(f is not None, f"{cname}._lower")
         cfg = cfg_of(ctx, f)
-        calls = [s for s in cfg.stmts() if isinstance(s, ast.Assign) and isinstance(s.value, ast.Call) and dotted(s.value.func) == "unify_chunks_expr"]
+        def unify_args(call):
+            """Argument texts of the unify_chunks_expr call this call amounts to: the call itself, or a
+            self.<helper>() whose every return is unify_chunks_expr(...) (a wrapper, e.g. one that pins settings)."""
+            if dotted(call.func) == "unify_chunks_expr":
+                return [unparse(a) for a in call.args]
+            if isinstance(call.func, ast.Attribute) and isinstance(call.func.value, ast.Name) and call.func.value.id == "self" and not call.args:
+                hit = ctx.repo.class_attr(m.cls(cname), call.func.attr)
+                if hit and hasattr(hit[1], "node"):
+                    rets = [r for r in ast.walk(hit[1].node) if isinstance(r, ast.Return) and r.value is not None]
+                    if rets and all(isinstance(r.value, ast.Call) and dotted(r.value.func) == "unify_chunks_expr" for r in rets):
+                        return [unparse(a) for a in rets[0].value.args]
+            return None
+
+        calls = [s for s in cfg.stmts() if isinstance(s, ast.Assign) and isinstance(s.value, ast.Call) and unify_args(s.value) is not None]
         rr.inst(site(f), unify_calls=len(calls))
         if not calls:
             ctx.finding(rr, site(f), f"{cname}._lower no longer unifies the operands' chunks", func=f)
             continue
         s = calls[0]
-        if [unparse(a) for a in s.value.args] != ["*self.args"]:
+        if unify_args(s.value) != ["*self.args"]:
             ctx.finding(rr, site(f, s), "unify_chunks_expr is not applied to *self.args", func=f, node=s)
         g = cfg.guards(s)
         if not any(pol and unparse(t) == "self.align_arrays" for t, pol in g):
